@@ -3,6 +3,7 @@ import AV.Spec.C20
 import AV.Spec.C06
 import AV.Spec.C02
 import AV.Spec.C17
+import AV.Spec.Own
 open Lean AV AV.Pub
 
 namespace Drv
@@ -686,6 +687,248 @@ def c11 (inp obs : Json) : Res :=
   match results.filter fun r => r.1.isSome with
   | [] => { agree := agree, specOk := true, why := why, nontrivial := !inconclusive }
   | (msg, cls) :: _ => { agree := agree, specOk := false, why := msg.getD "" ++ (if agree then "" else " | " ++ why), known := cls }
+
+/-! #### C04 / C16 -/
+
+def jOk (e : RecEv) : Bool := !isErr e.resp
+def evArgJ (e : RecEv) (i : Nat := 0) : J := J.norm (toJ (e.args.getD i Json.null))
+def evArgS (e : RecEv) (i : Nat := 0) : String := (e.args.getD i Json.null).getStr?.toOption.getD ""
+def itemsOf (c : J) : List J := ((Val.rawList c "items").getD []) ++ ((Val.rawList c "orderedItems").getD [])
+
+/-- the events of the default-callback phase of an inbox POST: after the callbacks were fetched, before forwarding -/
+def cbPhase (evs : List RecEv) (cfgName : String) : List RecEv :=
+  ((evs.dropWhile fun e => e.name != cfgName).drop 1).takeWhile fun e => e.name != "exists" && e.name != "getOutbox"
+
+def c04Step (sin sobs : Json) : Option String :=
+  let evs := libTrace sobs
+  if jstr sin "entry" != "postInbox" then none else
+  if (sobs.getObjVal? "panic").toOption.isSome then none else
+  let body := jget sin "body"
+  if jstr body "k" != "val" then none else
+  let v := J.norm (toJ (jget body "v"))
+  let ty := Val.typeName v
+  match evs.find? fun e => e.name == "fedCallbacks" with
+  | none => none
+  | some cfgEv =>
+  if isErr cfgEv.resp then none else
+  let cb := jget cfgEv.resp "ok"
+  let other := jIris (jget cb "other")
+  let wrapped := jIris (jget cb "wrapped")
+  let onFollow := jnat cb "onFollow"
+  -- the callback phase: for the inbox, everything after FederatingCallbacks up to the forwarding stage's Exists;
+  -- but the automatic Follow response calls GetOutbox (through Deliver) — cut only at Exists there
+  let phase0 := ((evs.dropWhile fun e => e.name != "fedCallbacks").drop 1).takeWhile fun e => e.name != "exists"
+  -- the forwarding stage locks the activity id before its Exists check: that Lock is not the callback's
+  let vid := Val.idGet v
+  let cut := phase0.findIdx fun e => e.name == "lock" && evArgS e == vid
+  -- (the default callbacks never lock the activity's own id — Like/Announce lock the objects' ids — unless it names itself)
+  let phase := if cut < phase0.length && !(phase0.drop (cut + 1)).any (fun e => e.name != "unlock" && e.name != "exists") then phase0.take cut else phase0
+  let writes := phase.filter fun e => e.name == "create" || e.name == "update" || e.name == "delete"
+  let faulty := phase.any fun e => isErr e.resp
+  if other.contains ty then
+    -- `other` replaces the default effect entirely
+    (if phase.any (fun e => e.name != "otherCb") then some s!"an application function for {ty} was supplied as 'other', yet the library also did {(phase.find? fun e => e.name != "otherCb").map (·.name)}" else none)
+  else if !fedDefaultsD.contains ty then none else
+  -- a wrapped callback is the last thing of the phase
+  let appIdx := phase.findIdx fun e => e.name == "appCb"
+  if appIdx + 1 < phase.length then some "a library call follows the wrapped application callback" else
+  if phase.any (fun e => e.name == "appCb") && !wrapped.contains ty then some "a wrapped callback ran that the application did not register" else
+  -- … and it runs only after the default effect succeeded (unreachable recipients are skipped, not failures)
+  let errIdx := phase.findIdx fun e => isErr e.resp && e.name != "deref" && e.name != "unlock"
+  if errIdx < phase.length && appIdx < phase.length && errIdx < appIdx then some s!"the wrapped callback ran although {(phase.getD errIdx default).name} of the default effect had failed" else
+  if errIdx < phase.length && (phase.getD errIdx default).name != "appCb" && jstr sobs "err" == "nil" && (evs.any fun e => e.name == "writeHeader" && (e.args.getD 0 Json.null).getNat?.toOption == some 200)
+    then some s!"the request was answered 200 although {(phase.getD errIdx default).name} of the default effect had failed" else
+  -- ownership-decided side effects
+  let ownBad : Option String :=
+    if ["Add", "Remove", "Like", "Announce"].contains ty then
+      (match monRun AV.Spec.Own.ownMon false phase with
+       | .error (k, what) => some s!"event {k} ({what}): a stored value was written although Owns did not just say yes"
+       | .ok _ => none)
+    else none
+  match ownBad with
+  | some m => some m
+  | none =>
+  if faulty then none else
+  let succeeded := (jstr sobs "err") == "nil" && evs.any fun e => e.name == "writeHeader" && (e.args.getD 0 Json.null).getNat?.toOption == some 200
+  if (ty == "Add" || ty == "Remove") && succeeded then
+    -- every target is looked at: Owns is asked about each of them, in order
+    let targets := match Val.prop facts v "target" with
+      | some xs => (match Val.idsOf facts xs with | .ok ids => ids | .error _ => [])
+      | none => []
+    let asked := (phase.filter fun e => e.name == "owns").map fun e => evArgS e
+    if asked != targets then some s!"{ty}: Owns was asked about {asked}, the targets are {targets}" else none
+  else
+  if ty == "Like" || ty == "Announce" then
+    -- each update = the value Get returned, with the activity id at the front of likes / shares
+    let p := if ty == "Like" then "likes" else "shares"
+    let gets := phase.filter fun e => e.name == "get"
+    let bad := (phase.filter fun e => e.name == "update").find? fun u =>
+      let nv := evArgJ u
+      !(gets.any fun g =>
+        let old := J.norm (toJ (jget g.resp "ok"))
+        Val.idGet old == Val.idGet nv &&
+        (match nv.get? p with
+         | some col => (match itemsOf col with
+            | first :: rest => first == J.str (Val.idGet v) &&
+                rest == (match old.get? p with | some oc => (match Val.elemOf facts oc with | .emb c => itemsOf c | _ => []) | none => []) &&
+                (nv.erase p) == (old.erase p)
+            | [] => false)
+         | none => false))
+    bad.map fun u => s!"{ty}: the value written for {Val.idGet (evArgJ u)} is not the stored one with the activity id at the front of {p}"
+  else if ty == "Follow" then
+    let me := (phase.find? fun e => e.name == "actorForInbox").bind fun e => (jget e.resp "ok").getStr?.toOption
+    let objIds := match Val.prop facts v "object" with
+      | some xs => (match Val.idsOf facts xs with | .ok ids => ids | .error _ => [])
+      | none => []
+    let isMe := match me with | some m => objIds.contains m | none => false
+    let delivered := phase.filter fun e => e.name == "batchDeliver"
+    let followersUpd := phase.filter fun e => e.name == "update"
+    if onFollow == 0 || !isMe then
+      (if !delivered.isEmpty || !writes.isEmpty then some "a Follow that is not answered automatically sent or changed something" else none)
+    else if !succeeded then none
+    else
+      let wantTy := if onFollow == 1 then "Accept" else "Reject"
+      let followActors := match Val.prop facts v "actor" with
+        | some xs => (match Val.idsOf facts xs with | .ok ids => ids | .error _ => [])
+        | none => []
+      match delivered with
+      | [d] =>
+        let resp := evArgJ d
+        if Val.typeName resp != wantTy then some s!"the automatic answer to the Follow is a {Val.typeName resp}, not a {wantTy}"
+        else if idSet resp "actor" != me.map (fun m => [m]) then some "the automatic answer is not from the followed actor"
+        else if idSet resp "to" != some (sortDedup followActors) then some "the automatic answer is not addressed to the following actors"
+        else if (match Val.prop facts resp "object" with | some [o] => Val.idGet (J.norm o) != Val.idGet v | _ => true) then some "the automatic answer does not carry the Follow as its object"
+        else if !(phase.any fun e => e.name == "newID") then some "the automatic answer was not freshly identified"
+        else if onFollow == 1 then
+          (match followersUpd, phase.find? (fun e => e.name == "followers") with
+           | [u], some f =>
+             let old := itemsOf (J.norm (toJ (jget f.resp "ok")))
+             let nw := itemsOf (evArgJ u)
+             if nw == (followActors.reverse.map J.str) ++ old then none else some "auto-accept did not put exactly the following actors in front of the followers collection"
+           | _, _ => some "auto-accept did not update the followers collection exactly once")
+        else (if !followersUpd.isEmpty then some "auto-reject changed a stored collection" else none)
+      | ds => some s!"the automatic answer was delivered {ds.length} times"
+  else none
+where fedDefaultsD : List String := ["Create", "Update", "Delete", "Follow", "Accept", "Reject", "Add", "Remove", "Like", "Announce", "Undo", "Block"]
+
+def c04 (inp obs : Json) : Res :=
+  let (agree, why, inconclusive) := replayAll inp obs
+  match checkSteps obs c04Step with
+  | none => { agree := agree, specOk := true, why := why,
+              nontrivial := !inconclusive && (stepsOf obs).any fun (_, o) => (libTrace o).any fun e => e.name == "fedCallbacks" }
+  | some m => { agree := agree, specOk := false, why := m ++ (if agree then "" else " | " ++ why) }
+
+/-- C16: is member `k` given as JSON null in the raw object? -/
+def rawNull (rawObj : Json) (k : String) : Bool :=
+  match (rawObj.getObjVal? k).toOption with
+  | some .null => true
+  | _ => false
+
+def c16Step (sin sobs : Json) : Option String :=
+  let evs := libTrace sobs
+  let entry := jstr sin "entry"
+  if !(entry == "postOutbox" || entry == "send") then none else
+  if (sobs.getObjVal? "panic").toOption.isSome then none else
+  let input : J := J.norm (if entry == "send" then toJ (jget sin "value") else toJ (jget (jget sin "body") "v"))
+  let rawIn : Json := if entry == "send" then jget sin "value" else jget (jget sin "body") "raw"
+  let ty := Val.typeName input
+  if !["Update", "Delete", "Add", "Remove", "Like", "Block"].contains ty then none else
+  match evs.find? fun e => e.name == "socialCallbacks" with
+  | none => none
+  | some cfgEv =>
+  if isErr cfgEv.resp then none else
+  let other := jIris (jget (jget cfgEv.resp "ok") "other")
+  if other.contains ty then none else
+  -- the side-effect phase ends where addToOutbox starts: Lock(new activity id), Create(activity)
+  let newId := (evs.findSome? fun e => if e.name == "newID" then (jget e.resp "ok").getStr?.toOption else none).getD ""
+  let phase := ((evs.dropWhile fun e => e.name != "socialCallbacks").drop 1).takeWhile fun e =>
+    !((e.name == "lock" && evArgS e == newId) || e.name == "getOutbox")
+  let faulty := evs.any fun e => isErr e.resp
+  let empty (p : String) : Bool := match Val.prop facts input p with | none => true | some [] => true | _ => false
+  let missing := empty "object" || ((ty == "Add" || ty == "Remove") && empty "target")
+  if missing then
+    (if evs.any (fun e => e.name == "create" || e.name == "update" || e.name == "delete" || e.name == "setOutbox" || e.name == "batchDeliver")
+      then some s!"{ty} without its required object/target changed or sent something"
+     else if entry == "postOutbox" && !faulty && !(evs.any fun e => e.name == "writeHeader" && (e.args.getD 0 Json.null).getNat?.toOption == some 400)
+      then some s!"{ty} without its required object/target was not answered 400" else none)
+  else
+  if ty == "Block" then
+    (if evs.any (fun e => e.name == "batchDeliver") then some "a Block was handed to the transport" else none)
+  else if ty == "Add" || ty == "Remove" then
+    (match monRun AV.Spec.Own.ownMon false phase with
+     | .error (k, what) => some s!"event {k} ({what}): a target collection was written although Owns did not just say yes"
+     | .ok _ =>
+       if faulty then none else
+       let opIds := match Val.prop facts input "object" with
+         | some xs => (match Val.idsOf facts xs with | .ok ids => ids | .error _ => [])
+         | none => []
+       let gets := phase.filter fun e => e.name == "get"
+       let bad := (phase.filter fun e => e.name == "update").find? fun u =>
+         let nv := evArgJ u
+         !(gets.any fun g =>
+           let old := J.norm (toJ (jget g.resp "ok"))
+           Val.idGet old == Val.idGet nv &&
+           (let key := if facts.isOrExt "OrderedCollection" (Val.typeName old) then "orderedItems" else "items"
+            let oldItems := (Val.rawList old key).getD []
+            let newItems := (Val.rawList nv key).getD []
+            if ty == "Add" then newItems == oldItems ++ opIds.map J.str
+            else newItems == oldItems.filter fun j => match Val.toId facts (Val.elemOf facts j) with | .ok id => !opIds.contains id | .error _ => true))
+       bad.map fun u => s!"{ty}: the collection written for {Val.idGet (evArgJ u)} is not the stored one with exactly the object ids {if ty == "Add" then "appended" else "removed"}")
+  else if faulty then none
+  else if !(jstr sobs "err" == "nil" && (entry == "send" || evs.any fun e => e.name == "writeHeader" && (e.args.getD 0 Json.null).getNat?.toOption == some 201)) then none
+  else if ty == "Like" then
+    let opIds := match Val.prop facts input "object" with
+      | some xs => (match Val.idsOf facts xs with | .ok ids => ids | .error _ => [])
+      | none => []
+    (match phase.find? (fun e => e.name == "liked"), phase.filter (fun e => e.name == "update") with
+     | some l, [u] =>
+       let old := itemsOf (J.norm (toJ (jget l.resp "ok")))
+       if itemsOf (evArgJ u) == (opIds.reverse.map J.str) ++ old then none else some "Like did not put exactly the object ids at the front of the actor's liked collection"
+     | some _, us => if us.isEmpty then none else some "Like updated more than the liked collection"
+     | none, _ => none)
+  else if ty == "Delete" then
+    let gets := phase.filter fun e => e.name == "get"
+    let nowEv := phase.find? fun e => e.name == "now"
+    let bad := (phase.filter fun e => e.name == "update").find? fun u =>
+      let t := evArgJ u
+      !(gets.any fun g =>
+        let old := J.norm (toJ (jget g.resp "ok"))
+        Val.idGet old == Val.idGet t && Val.typeName t == "Tombstone" &&
+        t.get? "formerType" == some (J.str (Val.typeName old)) &&
+        t.get? "published" == old.get? "published" && t.get? "updated" == old.get? "updated" &&
+        (match nowEv, t.get? "deleted" with
+         | some ne, some (J.str d) => (match ne.resp with
+            | .arr xs => d == Time.rfc3339 ((xs.getD 0 Json.null).getInt?.toOption.getD 0) ((xs.getD 1 Json.null).getInt?.toOption.getD 0)
+            | _ => false)
+         | _, _ => false))
+    bad.map fun u => s!"Delete: what replaced {Val.idGet (evArgJ u)} is not a Tombstone with its id, former type, original times and deleted = now"
+  else -- Update
+    let objs := ((Val.prop facts input "object").getD [])
+    let rawObjs : List Json := match jget rawIn "object" with
+      | .arr xs => xs.toList
+      | o => [o]
+    let gets := phase.filter fun e => e.name == "get"
+    let upds := phase.filter fun e => e.name == "update"
+    let bad := (objs.zip rawObjs).zipIdx.find? fun ((sup, rawObj), i) =>
+      match upds[i]?, gets[i]? with
+      | some u, some g =>
+        let nv := evArgJ u
+        let old := J.norm (toJ (jget g.resp "ok"))
+        let sup := J.norm sup
+        let keys := sortDedup (old.keys ++ sup.keys)
+        -- hostile members that change under re-decoding (C01) are not this property's business: only compare well-behaved members
+        keys.any fun k =>
+          let expect := if rawNull rawObj k then none else (match sup.get? k with | some x => some x | none => old.get? k)
+          nv.get? k != expect && !(k == "@context")
+      | _, _ => true
+    bad.map fun ((sup, _), i) => s!"Update: object {i} ({Val.idGet (J.norm sup)}) was not written back as 'stored members, overwritten by the supplied ones, minus those given as null'"
+
+def c16 (inp obs : Json) : Res :=
+  let (agree, why, inconclusive) := replayAll inp obs
+  match checkSteps obs c16Step with
+  | none => { agree := agree, specOk := true, why := why,
+              nontrivial := !inconclusive && (stepsOf obs).any fun (_, o) => (libTrace o).any fun e => e.name == "socialCallbacks" }
+  | some m => { agree := agree, specOk := false, why := m ++ (if agree then "" else " | " ++ why) }
 
 def pubGeneric (_prop : String) (inp obs : Json) : Res :=
   let (agree, why, inconclusive) := replayAll inp obs
